@@ -101,11 +101,16 @@ def c10Tokens : Handler := fun c => do
     for r in retains do
       for sl in sliceOpts do
         for rl in lenOpts do
-          let (chunks, lens) := chunkTokens p r refs sl rl
-          let spec := SlicePolicy.tokens p r refs sl (rl.map (·.map Int.toNat))
-          out := out.push (objJ [
-            ("model", objJ [("chunks", listJ (listJ tokJ) chunks), ("lens", listJ natJ lens)]),
-            ("spec", listJ (listJ tokJ) spec)])
+          -- through the shape checks of the function (`C10_tokens_entry`); the spec is evaluated only on
+          -- well-shaped arguments (`null` otherwise: the call must raise)
+          match chunkTokensEntry p r refs sl rl with
+          | .ok (chunks, lens) =>
+            let spec := SlicePolicy.tokens p r refs sl (rl.map (·.map Int.toNat))
+            out := out.push (objJ [
+              ("model", objJ [("chunks", listJ (listJ tokJ) chunks), ("lens", listJ natJ lens)]),
+              ("spec", listJ (listJ tokJ) spec)])
+          | .error .shape =>
+            out := out.push (objJ [("model", strJ "error:shape"), ("spec", Json.null)])
   pure (objJ [("results", Json.arr out)])
 
 /-- Directory level: one utterance at a time, the way `_chunk_torch_spect_data_dir_do_work` calls the
